@@ -22,6 +22,7 @@ func C13(c *core.Ctx) {
 		"Single decoder (B-LEGACY:decoder): every *Schema built in pkg/schemas is filled only through encoding/json, and the YAML reader is the pipeline YAML decode -> FixMapKeys -> json.Marshal -> json.Unmarshal " +
 		"in dominance order on one map. B-LEGACY:refcmp: structural type comparison (cmputil.Opts) ignores the raw $ref text or compares it by a custom rule. " +
 		"B-PARSER: the name whose extension selects the YAML or JSON parser in the file loader is the first result of QualifiedFileName (directly or through parameters at all call sites), i.e. the file that is opened. " +
+		"A-FIDELITY: (*Type).UnmarshalJSON interpreted on the one-keyword document {kw: v} leaves exactly what plain encoding/json makes of it — the stated value is neither normalised nor dropped (a zero is a stated value). " +
 		"Not decided: byte equality of outputs, YAML scalar typing, YAML documents with non-string mapping keys (goccy's behaviour)."
 	c.Trust("encoding/json decodes by struct tag", "goccy/go-yaml yields generic maps")
 	a := engb.New(c.Prog)
@@ -52,6 +53,7 @@ func C13(c *core.Ctx) {
 	ruleTypeForm(c)
 	// A-REFNAMES: both pointer prefixes, case-insensitively, name the same definition
 	ruleRefNames(c)
+	ruleFidelity(c, "pattern", "format", "title", "description", "$ref", "default", "minimum", "maximum", "multipleOf", "exclusiveMinimum", "exclusiveMaximum", "minLength", "maxLength", "minItems", "maxItems")
 	n, probs, notes := a.SchemaProducers()
 	c.Floor("B-LEGACY:decoder", n, 2, "functions that build a *Schema")
 	if len(probs) == 0 {
